@@ -146,8 +146,9 @@ func (u *PsipURI) Truncate() {
 func (u *PsipURI) AdjustOffs(newpos PField) bool {
 	offs := newpos.Offs // new start
 	end := offs + newpos.Len
-	if (u.Scheme.Len + u.User.Len + u.Pass.Len + u.Host.Len + u.Port.Len +
-		u.Params.Len + u.Headers.Len) > newpos.Len {
+	if (u.Scheme.Len+u.User.Len+u.Pass.Len+u.Host.Len+u.Port.Len+
+		u.Params.Len+u.Headers.Len) > newpos.Len ||
+		u.Long().Len > newpos.Len {
 		if DBGon() {
 			DBG("AdjustOffs: %d > %d\n",
 				u.Scheme.Len+u.User.Len+u.Pass.Len+u.Host.Len+u.Port.Len+
